@@ -191,6 +191,7 @@ def run_C02(ctx):
     vlib.model_check(ctx, "MCHamtRead", cfg_hamtread(2), name="MCHamtRead")
     t = [dgen(ctx, b, "sets", FAN_Q if q else FAN_T, ["-orders", 4 if q else 24]),
          dgen(ctx, b, "random", None, ["-count", 60 if q else 800]),
+         dgen(ctx, b, "longnames", FAN_Q if q else FAN_T),
          dgen(ctx, b, "big", None, ["-count", 4 if q else 30])]
     ctx.exhaustive = True
     decide(ctx, b, "TraceDir", DIR_INVS["C02"] + ["Inv_C02_Big"], t)
@@ -215,6 +216,7 @@ def run_C08(ctx):
     ctx.extra["tlc_histories_replayed"] = len(cases)
     t = [dgen(ctx, b, "sets", FAN_Q if q else FAN_T, ["-orders", 2 if q else 6]),
          dgen(ctx, b, "boxo", FAN_Q if q else FAN_T),
+         dgen(ctx, b, "longnames", FAN_Q if q else FAN_T),
          dgen(ctx, b, "hist", "8,16,256" if q else FAN_T, ["-cases", casefile]),
          dgen(ctx, b, "random", None, ["-count", 40 if q else 600])]
     ctx.exhaustive = True
@@ -617,6 +619,7 @@ F_PRELOAD = ("preload", ["-maxn", "9", "-wmax", "4"], ["-maxn", "20", "-wmax", "
 F_PRELOAD_NOBS = ("preload", ["-maxn", "7", "-wmax", "3", "-writer", "own-nobs"], ["-maxn", "14", "-wmax", "4", "-writer", "own-nobs"])
 F_PRELOAD_MIXED = ("preload", ["-maxn", "7", "-wmax", "3", "-writer", "own-mixed"], ["-maxn", "14", "-wmax", "4", "-writer", "own-mixed"])
 F_PRELOAD_MTIME = ("preload", ["-maxn", "6", "-wmax", "3", "-writer", "own-mtime"], ["-maxn", "12", "-wmax", "4", "-writer", "own-mtime"])
+F_PRELOAD_INLINE = ("preload", ["-maxn", "6", "-wmax", "3", "-writer", "own-inline"], ["-maxn", "12", "-wmax", "4", "-writer", "own-inline"])
 F_SEQ_MIXED = ("seq", ["-maxn", "7", "-wmax", "3", "-writer", "own-mixed"], ["-maxn", "16", "-wmax", "4", "-writer", "own-mixed"])
 F_RANGE_MIXED = ("range", ["-maxn", "6", "-wmax", "3", "-writer", "own-mixed"], ["-maxn", "10", "-wmax", "4", "-writer", "own-mixed"])
 F_REPEAT = ("seqrepeat", [], [])
@@ -791,7 +794,7 @@ PLANS = {
              "length and preload of every enumerated HAMT (own and reference-written) is validated by TLC to be a prefix of "
              "- and on completion equal to - the pre-order of the walker's block/shard table (Inv_C20_*).",
              rule=RULE_MIX, technique=TECH_MIX),
-    "C06": P(run_mixed("C06", [F_PRELOAD, F_PRELOAD_NOBS, F_PRELOAD_MIXED, F_PRELOAD_MTIME], [("preload", "8,16", "8,16,256,1024")]),
+    "C06": P(run_mixed("C06", [F_PRELOAD, F_PRELOAD_NOBS, F_PRELOAD_MIXED, F_PRELOAD_MTIME, F_PRELOAD_INLINE], [("preload", "8,16", "8,16,256,1024")]),
              "for every enumerated file shape and HAMT: the preload reifier is run with no fault and with each single block "
              "of the entity unavailable; TLC validates loads = all blocks of the entity, none of the entries' blocks, and an "
              "error whenever a block is missing (Inv_C06_*).", rule=RULE_MIX, technique=TECH_MIX),
